@@ -18,6 +18,7 @@ import SltVerif.Lemmas.CliMonSpec
 import SltVerif.Lemmas.CliAccept
 import SltVerif.Lemmas.CliMonComplete
 import SltVerif.Lemmas.CliExample
+import SltVerif.Lemmas.CliTrace
 namespace Slt.C17
 open Slt
 
@@ -280,5 +281,54 @@ example : accepts (monCfgOf exCfg (kw "main") (dinit exCfg))
 -- while the management session's own statements are fine
 example : accepts (monCfgOf { exCfg with files := [] } (kw "main") (dinit exCfg))
     [.connect 0 (kw "main"), .sql 0 (kw "CREATE DATABASE x;"), .eof 0] = none := by decide
+
+/-! ### observed runs of the real CLI are runs of the driver model (trace inclusion)
+
+The harness hands every parallel run of the real binary to `traceCheck` (CliTrace.lean) together with a
+witness label sequence found by an untrusted search: the checker replays the witness through
+`drun` and compares the model's log and results with the engine-side log and the printed status
+tags (without the cancellation anchor, which is not an engine event).  These theorems say what a
+positive answer means, so that everything proved about runs of `dstep` holds of the observed run. -/
+
+/-- **The checker is exact**: it answers `ok` iff the witness is a finished run of the driver model
+whose log is the observed log and whose per-file results are the observed status tags. -/
+theorem trace_replay_iff {c : DCfg} {labels : List DLabel} {observed : List CEv}
+    {tags : List FileResult} :
+    traceCheck c labels observed tags = .ok ↔
+      ∃ s, drun c (dinit c) labels = some s ∧ s.phase = .finished ∧
+        stripCancel s.log = stripCancel observed ∧ tags.length = c.files.length ∧
+        ∀ i, i < c.files.length → resultOf s.results i = tags[i]? := by
+  constructor
+  · intro h
+    obtain ⟨s, hs⟩ := traceCheck_ok h
+    exact ⟨s, hs.run, hs.finished, hs.log, hs.ntags, hs.results⟩
+  · rintro ⟨s, h1, h2, h3, h4, h5⟩
+    exact traceCheck_complete ⟨h1, h2, h3, h4, h5⟩
+
+/-- **An observed run that replays satisfies the specification of C17**: the model run with the same
+engine-side events is accepted by the monitor, hence (for a parallel run) satisfies `MonSpec`. -/
+theorem trace_replay_accepted {c : DCfg} {mgmt : Str} {labels : List DLabel} {observed : List CEv}
+    {tags : List FileResult} (wf : DWf c mgmt) (h : traceCheck c labels observed tags = .ok) :
+    ∃ s : DSt, stripCancel s.log = stripCancel observed ∧ s.inflight.length ≤ c.jobs ∧
+      accepts (monCfgOf c mgmt s) s.log = none ∧
+      (c.jobs > 0 → MonSpec (monCfgOf c mgmt s) s.log) := by
+  obtain ⟨s, hs⟩ := traceCheck_ok h
+  exact ⟨s, hs.log, drun_inflight_le hs.run, drun_accepts wf hs.run hs.finished,
+    fun hj => monSpec_of_accepts (cfg := monCfgOf c mgmt s) hj (drun_accepts wf hs.run hs.finished)⟩
+
+-- the checker on the example runs: the model's own log replays, a log with one event missing or a
+-- result changed does not
+example : traceCheck exCfg exRunClose
+    exCloseLog [.ok, .ok, .ok] = .ok := by decide
+example : traceCheck exCfg exRunClose
+    (exCloseLog.drop 1) [.ok, .ok, .ok] = .logDiffers 0 := by
+  decide
+example : traceCheck exCfg exRunClose
+    exCloseLog [.ok, .err, .ok] = .resultDiffers 1 := by
+  decide
+example : traceCheck exCfg (exRunClose.take 5)
+    exCloseLog [.ok, .ok, .ok] = .notFinished := by
+  decide
+example : traceCheck exCfg (.start :: exRunClose) [] [.ok, .ok, .ok] = .stuck 0 := by decide
 
 end Slt.C17
